@@ -379,7 +379,12 @@ impl Prop for C13 {
                     .iter()
                     .map(|c| [(c >> 16) as u8, (c >> 8) as u8, *c as u8])
                     .collect();
-                let Some(palette) = ColorPalette::new(colors.iter().map(|c| rgb(*c)).collect()) else {
+                // palette entries carry arbitrary alpha (distances are RGB distances)
+                let entry = |c: &u32| {
+                    let alpha = [255u8, 255, 0, 128][((*c >> 3) ^ (*c >> 11)) as usize % 4];
+                    RGBA::new((*c >> 16) as u8, (*c >> 8) as u8, *c as u8, alpha)
+                };
+                let Some(palette) = ColorPalette::new(colors.iter().map(entry).collect()) else {
                     fail!("lookup:palette-rejected", "ColorPalette::new returned None for {} colours", colors.len());
                 };
                 ensure!(
@@ -408,6 +413,16 @@ impl Prop for C13 {
                         "find({q:?}) returned index {index} = {:?} together with colour {:?}",
                         list[index],
                         color.to_rgb()
+                    );
+                    // the exhaustive lookup the library offers next to the tree search
+                    let (nindex, ncolor) = palette.find_naive(RGBA::new(q[0], q[1], q[2], 255));
+                    ensure!(
+                        nindex < list.len() && list[nindex] == ncolor.to_rgb() && dist(list[nindex], q) == min_dist(&list, q),
+                        format!("lookup:find_naive-not-nearest:{kind}"),
+                        "find_naive({q:?}) returned index {nindex} = {:?} at squared distance {}; nearest entry is at {}",
+                        list.get(nindex),
+                        list.get(nindex).map(|c| dist(*c, q)).unwrap_or(-1),
+                        min_dist(&list, q)
                     );
                     let got = dist(list[index], q);
                     let best = min_dist(&list, q);
